@@ -5,7 +5,7 @@ read schedule; never success with piece length zero; content-root rule).
 Correspondence: the real binary `imdl torrent verify` on torrents written by this generator (never
 by `create`) x sandbox trees, against the extracted model (Verify.verify_cmd with SHA-1/MD5
 instantiated in the driver) and against an independent Python reference verifier."""
-import copy, shutil, tempfile
+import copy, os, shutil, tempfile
 import lib
 from props import vfy
 
@@ -24,6 +24,17 @@ MANIFEST = dict(
          "hashlib every run), Python oracle.")
 
 MODES = ["content", "base", "default", "stdin", "stdin-content", "stdin-base"]
+
+
+def _dir_st_size():
+    d = tempfile.mkdtemp(prefix="c03-dirsize-")
+    try:
+        return os.stat(d).st_size
+    finally:
+        os.rmdir(d)
+
+
+DIR_ST_SIZE = _dir_st_size()
 
 
 def witness_zero_piece_length():
@@ -128,6 +139,14 @@ def perturbations(r, w, mode):
     yield "directory in place of file", x, True, None
     x = clone(); set_file(x, i, {}); x.repiece()
     yield "directory in place of file, pieces recomputed", x, True, None
+    # a directory has a size of its own (st_size): listing exactly that length, without md5sum, must not make it pass as the
+    # file (added after seeded change C03-9: type and length taken from one open handle)
+    x = clone(); set_file(x, i, {})
+    tgt = x.info[b"files"][i] if x.multi else x.info
+    tgt[b"length"] = DIR_ST_SIZE
+    tgt.pop(b"md5sum", None)
+    x.repiece()
+    yield "directory in place of file, listed length = the directory's own st_size, no md5sum", x, True, None
     x = clone()
     if x.multi:
         vfy.tree_del(x.content, list(x.files[i][0]))
@@ -155,6 +174,14 @@ def perturbations(r, w, mode):
         yield "duplicate path, pieces not updated", x, True, None
         x = clone(); x.info[b"files"].append(copy.deepcopy(x.info[b"files"][i])); x.repiece()
         yield "duplicate path, pieces over the duplicated concatenation", x, True, None
+        # the same path twice in a row, the second listing lying about the length or the checksum (added after seeded change
+        # C03-7: per-file results de-duplicated by path)
+        x = clone(); e = copy.deepcopy(x.info[b"files"][i]); e[b"length"] += 1; x.info[b"files"].insert(i + 1, e); x.repiece()
+        yield "path listed twice in a row, second listing one byte too long, pieces over what is read", x, True, None
+        x = clone(); e = copy.deepcopy(x.info[b"files"][i]); e[b"md5sum"] = b"0" * 32; x.info[b"files"].insert(i + 1, e); x.repiece()
+        yield "path listed twice in a row, second listing with a wrong md5sum, pieces over what is read", x, True, None
+        x = clone(); e = copy.deepcopy(x.info[b"files"][i]); e[b"length"] += 1; x.info[b"files"].insert(i, e); x.repiece()
+        yield "path listed twice in a row, first listing one byte too long, pieces over what is read", x, True, None
         if len(w.files) > 1:
             x = clone(); x.info[b"files"].reverse()
             yield "listing reversed, pieces not updated", x, True, None
@@ -439,6 +466,8 @@ def run(ctx, pid="C03"):
     if not ctx.need_rust() or not ctx.need_runner():
         return finish(ctx)
     hash_selftest(ctx)
+    if pid == "C03":
+        vfy.big_piece_cases(ctx)
     cases = generate(ctx)
     tmp = tempfile.mkdtemp(prefix="c03-")
     try:
